@@ -421,9 +421,9 @@ FIELD_ALPHABET = b'#.,+-$*^!&\\ _%0aE'
 
 class C08(core.Check):
     ID = 'C08'
-    GEN = ['gen_using']
+    GEN = ['gen_mbf', 'gen_dec', 'gen_using']
     PROPS = 'props/C08.v'
-    MODEL_IMPORTS = ['gen.Gen_using', 'model.Using']
+    MODEL_IMPORTS = ['gen.Gen_using', 'model.Using', 'model.UsingDec']
     QUICK_CASES = 1100
     THOROUGH_CASES = 16000
     TRUSTED = ['hand model model/Using.v of formatter.py (StringField/NumberField scanners and format, '
@@ -822,57 +822,31 @@ class C08(core.Check):
     _vsess = None
     _tabs = None
 
-    def _table(self, v):
-        """(neg, zero, dbl, [(mantissa, exp10) of Float.to_decimal(n) for n = 0..digits]) of a numeric value:
-        the repository's binary->decimal conversion is an oracle input of the model (property C07)."""
+    def _float_bytes(self, v):
+        """MBF bytes of the value as NumberField.format sees it (integers are promoted by to_float());
+        to_decimal is NOT asked here: the model computes it from these bytes (gen/Gen_dec.v core)."""
         if self._tabs is None:
             self._tabs = {}
         key = repr(v)
         if key not in self._tabs:
-            if self._vsess is None:
-                self._vsess = common.new_session()
-                self._vsess.start()
-            vals = self._vsess._impl.values
             if v[0] == '%':
-                x = vals.from_value(v[1], b'%').to_float()
+                if self._vsess is None:
+                    self._vsess = common.new_session()
+                    self._vsess.start()
+                x = self._vsess._impl.values.from_value(v[1], b'%').to_float()
+                self._tabs[key] = (False, bytes(x.to_bytes()))
             else:
-                x = vals.from_bytes(mbf_bytes(v))
-            neg, zero = bool(x.is_negative()), bool(x.is_zero())
-            dbl = x.sigil == b'#'
-            a = x.clone().iabs()
-            tab = [] if zero else [a.to_decimal(n) for n in range(0, (16 if dbl else 7) + 1)]
-            self._tabs[key] = (neg, zero, dbl, tab)
+                self._tabs[key] = (v[0] == '#', mbf_bytes(v))
         return self._tabs[key]
 
-    @staticmethod
-    def _needed(specs, dbl, tab):
-        """the precisions at which the fields of the format can ask to_decimal for this value (only these
-        entries are passed to keep the Coq literals small; a missing entry makes the model answer Host)"""
-        digits = 16 if dbl else 7
-        need = set()
-        for sp in specs:
-            if sp.exp:
-                for db in (sp.before, max(0, sp.before - 1)):
-                    need.add(max(0, min(digits, db + sp.decimals)))
-            else:
-                need.add(digits)
-                n_after = -tab[digits][1]
-                if n_after > sp.decimals:
-                    need.add(max(0, min(digits, digits - (n_after - sp.decimals))))
-        return sorted(need)
-
-    def _coq_val(self, v, specs):
+    def _coq_val(self, v):
         if v[0] == '$':
             return '(UStr %s)' % hexs(v[1])
-        neg, zero, dbl, tab = self._table(v)
-        z = lambda n: '(%d)' % n if n < 0 else '%d' % n
-        b = lambda x: 'true' if x else 'false'
-        ent = [] if zero else ['(%d,(%s,%s))' % (n, z(tab[n][0]), z(tab[n][1])) for n in self._needed(specs, dbl, tab)]
-        return '(UNum (mkNV %s %s %s [%s]))' % (b(neg), b(zero), b(dbl), ';'.join(ent))
+        dbl, b = self._float_bytes(v)
+        return '(UNum (nval_of_bytes %s %s))' % ('true' if dbl else 'false', hexs(b))
 
     def model_term(self, case):
-        specs = [it[1] for it in ref_items(bytes(case['f'])) if it[0] == 'num']
-        vals = '[' + ';'.join(self._coq_val(v, specs) for v in case['v']) + ']'
+        vals = '[' + ';'.join(self._coq_val(v) for v in case['v']) + ']'
         return '(enc_stream [13;10] (print_using %s %s %s))' % (hexs(case['f']), vals,
                                                                 'true' if case['t'] else 'false')
 
